@@ -208,6 +208,9 @@ func genProxiedRequest(r *core.Rand, id, limit int) ReqSpec {
 		sp.ServerFirst = true
 		sp.Handler.Steps = []HStep{{Op: "sendall"}, {Op: "recvall"}}
 	}
+	if sp.Proto == "http" && r.Chance(1, 4) {
+		sp.AcceptGzip = true
+	}
 	// a second and third binary key
 	if r.Chance(1, 3) {
 		sp.MD = append(sp.MD, [2]string{"X-Second-Bin", binValue(r, patternBytes(r.U64(), 1+r.Intn(20)))})
